@@ -167,13 +167,37 @@ func init() {
 			if err != nil {
 				return err
 			}
+			var probe struct {
+				Replay map[string]json.RawMessage `json:"replay"`
+			}
+			if err := json.Unmarshal(b, &probe); err != nil {
+				return err
+			}
+			c.Rep.Evaluations = 1
+			if _, isNode := probe.Replay["entry"]; isNode { // a node construction case (nodekey.go)
+				var wrap struct {
+					Replay c19nodeCase `json:"replay"`
+				}
+				if err := json.Unmarshal(b, &wrap); err != nil {
+					return err
+				}
+				c.Line("new http x x70:x61/0/-:", "ok")
+				op, ans, err := c19nodeCaseRun(c, wrap.Replay)
+				if err != nil {
+					return err
+				}
+				c.Line(op, ans)
+				return nil
+			}
+			if _, isSetKey := probe.Replay["flag"]; isSetKey { // a SetApiKey case (setkey.go)
+				return c19setkey(c)
+			}
 			var wrap struct {
 				Replay c19case `json:"replay"`
 			}
 			if err := json.Unmarshal(b, &wrap); err != nil {
 				return err
 			}
-			c.Rep.Evaluations = 1
 			return c19emit(c, wrap.Replay, false)
 		}
 		c.Rep.Rule = "real rpc.Server with probe services (call, ctx call, failing call, 2-arg call, subscriptions) over HTTP (rpc.StartHTTPEndpoint, as node.startHTTP), " +
@@ -185,6 +209,10 @@ func init() {
 		// how the node gets its key
 		if err := c19setkey(c); err != nil {
 			return fmt.Errorf("setkey: %v", err)
+		}
+		// key resolution on every construction path of a node (real constructors + the node's own startRPC)
+		if err := c19nodekeys(c); err != nil {
+			return fmt.Errorf("nodekey: %v", err)
 		}
 		// (G) facts
 		gl, err := c19gfacts()
